@@ -13,15 +13,18 @@ def main(tier, args):
     rpc_srcs = vf.module_sources("jsonrpc", "util/json.cpp", "util/serializer.cpp", "base/catch_throw.cpp", "base/backtrace.cpp", "event")
     # three executables; the three big harness TUs compile concurrently (distinct sources/flags -> distinct cache keys)
     cc, mflags = vf.MODES["asan"]
+    # harness TUs only: not instrumented (58 s -> 19 s of compile time); every cpp-tbox source keeps ASan+UBSan and is linked first,
+    # so shared inline/template code (nlohmann, TimeoutMonitor) resolves to the instrumented copies
+    O0 = ["-fno-sanitize=all"]
     with ThreadPoolExecutor(3) as ex:
-        f1 = ex.submit(vf.build, "C14/frame_asan", [D + "frame_harness.cpp"], rpc_srcs, mode="asan", plain_srcs=STUB)
+        f1 = ex.submit(vf.build, "C14/frame_asan", [D + "frame_harness.cpp"], rpc_srcs, mode="asan", plain_srcs=STUB, harness_flags=O0)
         f2 = ex.submit(vf.build, "C14/frame_opt", [D + "frame_harness.cpp"], frame_srcs + STUB, mode="opt")   # stub compiled with the opt flags: no cache-key clash with the concurrent build
-        f3 = ex.submit(vf._compile_one, cc, vf.BASE_FLAGS + mflags + ["-fno-access-control"], D + "rpc_harness.cpp")   # pre-warm the cache
+        f3 = ex.submit(vf._compile_one, cc, vf.BASE_FLAGS + mflags + ["-fno-access-control"] + O0, D + "rpc_harness.cpp")   # pre-warm the cache
         frame, f3r = f1.result(), f3.result()
-        rpc = vf.build("C14/rpc_asan", [D + "rpc_harness.cpp"], rpc_srcs, mode="asan", plain_srcs=STUB)
+        rpc = vf.build("C14/rpc_asan", [D + "rpc_harness.cpp"], rpc_srcs, mode="asan", plain_srcs=STUB, harness_flags=O0)
         frame_opt = f2.result()
     res = vf.Result(); log = open(vf.BUILD + "/C14/log.txt", "w")
-    dl = 1100 if thorough else 50
+    dl = 1100 if thorough else 150
     jobs = []
     def fam(exe, tag, name, nparts, maxseg=0):
         for p in range(nparts):
@@ -63,7 +66,7 @@ def main(tier, args):
                    "fed as a caller does (consume the returned count, re-present the rest), must give the unsegmented message sequence and consume everything; valid frame + every hostile string (len<=%s [-O2], len<=%s [ASan]) + valid frame: same message sequence; "
                    "PACKET [ASan]: every sequence of <=3 packets, one call each, decodes as each packet alone; "
                    "HOSTILE [ASan]: header length field in {0,1,n-1,n,n+1,n+6,2^31-1,2^31,2^32-7..2^32-1} x every truncation x {alone,followed by a frame}, all 65536 magic values, every proper prefix of ~2000 valid messages, "
-                   "every byte string of length<=%s over '{}[]\"\\,:1a ' in 5 presentations, 78000 JSON-RPC envelopes with hostile field types (bare and in batch arrays); [-O2, 8 MiB stack] arrays nested 100..10^6 deep: "
+                   "every byte string of length<=%s over '{}[]\"\\,:1a ' in 5 presentations, 39000 JSON-RPC envelopes with hostile field types, each bare and inside a batch array; [-O2, 8 MiB stack] arrays nested 100..10^6 deep: "
                    "no exception, no crash/sanitizer report, return value <= presented size, incomplete frame -> 0, non-JSON -> not consumed, no callback for non-messages. "
                    "(H, completion) BFS depth %d over {request(plain | callback issues a follow-up), deliver result|error for any issued request (hence duplicate/late too), deliver future-id / id 1000 / id 0, advance 1 s + loop pass} "
                    "on two real Rpc peers wired back-to-back on a real loop with a virtual monotonic clock; <=3 requests; timeout_sec in {1,2,3,default 30 (advance = 10 ticks)}; 3 protos; epoll+select; "
